@@ -216,15 +216,36 @@ QV = ["x", "y"]
 COMBOS = [(p, q) for p in PV for q in QV]
 
 
+class _ColVals:
+    """one column of the selection (pandas Series contract: astype / map are elementwise)"""
+
+    def __init__(self, vals):
+        self.vals = list(vals)
+
+    def astype(self, t):
+        return _ColVals([str(v) for v in self.vals]) if t is str else self
+
+    def map(self, fn):
+        return _ColVals([fn(v) for v in self.vals])
+
+
 class _Cols:
+    """data.loc[:, cols]: astype(str) / apply(column function) are elementwise, agg(fn, axis=1) is row-wise"""
+
     def __init__(self, rows, cols):
         self.rows, self.cols = rows, cols
 
     def astype(self, t):
+        if t is str:
+            return _Cols([{c: str(r[c]) for c in self.cols} for r in self.rows], self.cols)
         return self
 
+    def apply(self, fn):
+        out = {c: fn(_ColVals([r[c] for r in self.rows])).vals for c in self.cols}
+        return _Cols([{c: out[c][i] for c in self.cols} for i in range(len(self.rows))], self.cols)
+
     def agg(self, fn, axis=1):
-        return [fn([str(r[c]) for c in self.cols]) for r in self.rows]
+        return [fn([r[c] for c in self.cols]) for r in self.rows]
 
 
 class _Loc:
